@@ -237,6 +237,23 @@ CHECKS['C12'] = dict(
     note='level other: premises proved (D/shape: n, hand types, boards as listed), composition on paper, B stand-in (twin runs).',
     technique='sidecar contracts + own VC generator over the real AST + z3 (abstract hands) for the lemmas; paper composition; bounded twin-run stand-in')
 
+CHECKS['C15'] = dict(
+    category='other',
+    text='Record exactness is proved per operation on the real body, at the point where the operation hands its record to the phase step: '
+         'the record of each of the 16 operations carries exactly the player, amount, cards and facings of what the operation did to the '
+         'state (chips moved from that stack only, cards added to that hand / those board rows / that pile, the collected and returned '
+         'parts of a bet collection, the per-player amounts and the sub-pot of a push, the cards tabled at a showdown, ...). Every phase step '
+         'is proved to append the record it is given to the log, whatever it goes on to do. Structural scans of the source as it is on this '
+         'run show that State._update is the only writer of the log and only appends, that randomness enters only through the deck shuffles, '
+         'and that no mutable object is shared between State instances and no class or module attribute is written. The whole-history '
+         'statement (replaying the log on a fresh state reproduces log and state; copies are independent) is the induction of these clauses '
+         'over the log -- a paper step; replay-the-log and copy-and-compare runs on random hands are a bounded stand-in, never counted.',
+    design_ref='DESIGN.md section 4 (C15), section 8',
+    note='level other: per-operation clauses proved (D/shape) + structural scans (no bound); the induction over the log and deepcopy itself '
+         'are assumptions; B stand-in reported separately.',
+    technique='sidecar contracts + own VC generator over the real AST + z3 for record exactness and log discipline; AST scans for writers, '
+              'randomness and sharing; bounded replay / copy stand-in')
+
 NOT_APPLICABLE = {
     'C20': 'regex-driven text importers against external site formats; no contract within reach expresses or decides it (DESIGN.md section 5)',
 }
